@@ -379,46 +379,56 @@ def run(chk):
             return NotConstant
         return ConstEval(chk.res, fi.module, {}, hook).ev(e)
 
-    # -- fractions: quantity < min_fraction_daily_coverage (strict), quantity = n_valid_* / float(n_days_total)
-    FR = {P + "too_many_days_with_missing_data": "self.n_valid_days",
-          P + "too_many_days_with_missing_meter_data": "self.n_valid_meter_value_days",
-          P + "too_many_days_with_missing_temperature_data": "self.n_valid_temperature_days"}
-    for q, numer in FR.items():
-        s = site_for(q)
-        if s is None:
-            r2.require(False, f"predicate|{q}|site", base.module.rel, f"no disqualifying site for `{q}`")
-            continue
-        fi, cfg, rd, gs = guards_of(s)
-        found = None
-        for t, pol in gs:
-            while isinstance(t, ast.UnaryOp) and isinstance(t.op, ast.Not):
-                t, pol = t.operand, not pol
-            for leaf in (t.values if isinstance(t, ast.BoolOp) and isinstance(t.op, ast.And) and pol else [t]):
-                nc = _norm_compare(leaf)
-                if nc is None:
-                    continue
-                lhs, op, rhs = nc
-                try:
-                    thr = const_of(fi, rd, s["stmt"], rhs)
-                except Exception:
-                    try:
-                        thr = const_of(fi, rd, s["stmt"], leaf.left)
-                        lhs, op, rhs = unparse(rhs), FLIP[op], leaf.left
-                    except Exception:
-                        continue
-                if not pol:
-                    op = NEG[op]
-                if isinstance(thr, float) and 0 < thr < 1:
-                    found = (lhs, op, thr, leaf)
-        ok = found is not None and found[1] == "<" and found[2] == 0.9
-        r2.require(ok, f"predicate|{q}|fraction<0.9", fi.where(s["stmt"]),
-                   f"`{q}` must fire iff fraction < 0.9 (strict: exactly 90% qualifies); found {found[:3] if found else None}",
-                   sample={"criterion": q, "predicate": list(found[:3]) if found else None})
-        if found:
-            # the fraction is numer / n_days_total
-            sl = " ".join(unparse(x) for x in backward_slice_exprs(rd, s["stmt"], ast.parse(found[0], mode="eval").body, 4))
-            ok2 = numer in sl and "self.n_days_total" in sl and "/" in sl
-            r2.require(ok2, f"predicate|{q}|fraction-definition", fi.where(s["stmt"]), f"`{q}`: the tested fraction must be {numer} / n_days_total; found `{sl[:120]}`")
+    # -- scalar criteria are *interpreted* (engine/pyinterp + absint) on an abstract criteria object: one representative on each side of
+    #    every threshold, so the verdict does not depend on how the method spells its condition.
+    from engine.absint import AbsObj, BoundRepoMethods, ModuleEnv
+    from engine.pyinterp import Function, Interp, InterpRaised, Stub, StubCall, Unsupported
+
+    class _W(Stub):
+        def __init__(self, qualified_name=None, **k):
+            self.qualified_name = qualified_name
+
+    class _Crit(AbsObj, BoundRepoMethods):
+        pass
+
+    def run_criterion(cls_info, mname, **state):
+        fi_ = chk.res.find_method(cls_info, mname)
+        if fi_ is None:
+            raise AnalysisError(f"criterion method vanished: {cls_info.key}.{mname}")
+        it = Interp(step_limit=50_000)
+        stand = {"EEMeterWarning": StubCall(lambda **k: _W(**k))}
+        me = _Crit({cls_info.name, "SufficiencyCriteria"}, disqualification=[], warnings=[], **state)
+        me._bind_repo(chk, cls_info, it, stand)
+        env = ModuleEnv(chk.repo, fi_.module, it, stand)
+        try:
+            Function(fi_.node, env, it)(me)
+        except InterpRaised as e:
+            return fi_, {"raises": e.exc_name}
+        except Unsupported as e:
+            raise AnalysisError(f"{fi_.key}: uses an operation outside the modelled subset: {e}")
+        except (ZeroDivisionError, TypeError) as e:
+            return fi_, {"raises": type(e).__name__}
+        return fi_, {"dq": [w.qualified_name for w in me.disqualification], "warn": [w.qualified_name for w in me.warnings]}
+
+    FR = {P + "too_many_days_with_missing_data": ("_check_valid_days_percentage", "n_valid_days", True),
+          P + "too_many_days_with_missing_meter_data": ("_check_valid_meter_readings_percentage", "n_valid_meter_value_days", False),
+          P + "too_many_days_with_missing_temperature_data": ("_check_valid_temperature_values_percentage", "n_valid_temperature_days", True)}
+    for q, (mname, field, applies_to_reporting) in FR.items():
+        bad = []
+        fi = None
+        for rep in ((False, True) if applies_to_reporting else (False,)):  # baseline-only criteria are never run on reporting data (R10.1)
+            for total, valid, low in ((100, 89, True), (100, 90, False), (100, 91, False), (100, 100, False), (1000, 899, True), (1000, 900, False), (0, 0, True), (-3, 0, True)):
+                st = {"n_days_total": total, "is_reporting_data": rep, "n_valid_days": 100, "n_valid_meter_value_days": 100, "n_valid_temperature_days": 100}
+                st[field] = valid
+                fi, o = run_criterion(base, mname, **st)
+                want = low and (applies_to_reporting or not rep)
+                got = q in o.get("dq", [])
+                if "raises" in o or got != want or [x for x in o.get("dq", []) if x != q]:
+                    bad.append((f"{field}={valid} of n_days_total={total}, reporting={rep}", o))
+        r2.require(not bad, f"predicate|{q}|fraction<0.9", fi.where(),
+                   f"`{q}` must disqualify iff {field} / n_days_total < 0.9 (strict: exactly 90 % qualifies; no days at all counts as 0)"
+                   f"{'' if applies_to_reporting else ', baseline data only'}; deviations: {bad[:3]}", sample={"criterion": q, "cases": 16})
+        r2.inst(f"predicate|{q}|fraction-definition")
     # -- monthly coverage: (per-month notna().mean() of column) < 0.9 .any()
     MON = {P + "missing_monthly_temperature_data": "temperature", P + "missing_monthly_meter_data": "observed", P + "missing_monthly_ghi_data": "ghi"}
     for q, col in MON.items():
@@ -443,47 +453,20 @@ def run(chk):
                     ok = op == "<" and thr == 0.9 and f"self.data['{col}']" in sl and "index.month" in sl and "notna().mean()" in sl
         r2.require(ok, f"predicate|{q}|monthly<0.9", fi.where(s["stmt"]),
                    f"`{q}` must fire iff any calendar month has notna().mean() of `{col}` < 0.9; found {detail}", sample={"criterion": q, "predicate": list(detail) if detail else None})
-    # -- span
-    s = site_for(P + "incorrect_number_of_total_days")
-    if s is None:
-        r2.require(False, "predicate|span|site", base.module.rel, "no site for incorrect_number_of_total_days")
-    else:
-        fi, cfg, rd, gs = guards_of(s)
-        bounds = {}
-        tests = [t for t, pol in gs if pol]
-        atoms = {}
-        def atomizer(e):
-            z, neg = boolalg.strip_truthiness(e)
-            if unparse(z) == "self.is_reporting_data":
-                return ("rep", neg)
-            nc = _norm_compare(z)
-            if nc and "n_days_total" in (nc[0] + unparse(nc[2])):
-                lhs, op, rhs = nc
-                if "n_days_total" not in lhs:
-                    lhs, op, rhs = unparse(rhs), FLIP[op], z.left
-                try:
-                    thr = const_of(fi, rd, s["stmt"], rhs)
-                except Exception:
-                    return None
-                if op in (">", ">="):
-                    hi = thr if op == ">" else thr - 1
-                    bounds["max"] = hi
-                    return ("gt", neg)
-                if op in ("<", "<="):
-                    lo = thr if op == "<" else thr + 1
-                    bounds["min"] = lo
-                    return ("lt", neg)
-            return None
-        ok = False
-        try:
-            tt = boolalg.conj_table([(t, True) for t in tests], atomizer, ["rep", "gt", "lt"])
-            ok = all(tt[(False, g, l)] == (g or l) for g in (False, True) for l in (False, True))
-        except boolalg.Unrecognised as e:
-            bounds["unrecognised"] = str(e)
-        ok = ok and bounds.get("max") == 365 and bounds.get("min") == 329
-        r2.require(ok, "predicate|incorrect_number_of_total_days|329..365", fi.where(s["stmt"]),
-                   f"baseline span criterion must fire iff n_days_total > 365 or n_days_total < 329 (= ceil(0.9*365)); found bounds {bounds}",
-                   sample={"criterion": "span", "bounds": {k: v for k, v in bounds.items()}})
+    # -- span (interpreted)
+    qspan = P + "incorrect_number_of_total_days"
+    bad = []
+    fi = None
+    for rep in (False,):  # a baseline-only criterion (not in the reporting list, R10.1): the reporting state is not reachable
+        for n in (0, 300, 328, 329, 330, 364, 365, 366, 400):
+            fi, o = run_criterion(base, "_check_baseline_length_daily_billing_model", n_days_total=n, is_reporting_data=rep, num_days=365)
+            want = (not rep and n > 365) or n < 329
+            got = qspan in o.get("dq", [])
+            if "raises" in o or got != want:
+                bad.append((f"n_days_total={n}, reporting={rep}", o))
+    r2.require(not bad, "predicate|incorrect_number_of_total_days|329..365", fi.where(),
+               f"baseline span criterion must fire iff n_days_total > 365 (baseline only) or n_days_total < 329 (= ceil(0.9*365)); deviations: {bad[:3]}",
+               sample={"criterion": "span", "cases": 18})
     # -- negative usage
     s = site_for(P + "negative_meter_values")
     if s is None:
